@@ -106,11 +106,26 @@ def r3(ctx):
         ok = bool(rets) and all(src(r.value) == want for r in rets)
         ctx.ob("R3", "EXIT", f, "mz_offset is None", ok, f"with no MZ header found returns {[src(r.value) for r in rets]} (documented {want})")
     for fq in ("pe.find_mz_offset", "pe.find_architecture"):
+        # when the scan is exhausted without an accepted candidate the function returns None: from the exhaustion edge of
+        # the scan loop no `raise` is reachable, and a `return None` (or a return of a local that holds None on that path)
+        # is; every exit from there that returns something else must be separated from it by an `is None` test
         f = ctx.repo.func(fq)
         cfg = ctx.cfg(f)
-        last = [r for r in cfg.return_stmts() if FuncView.of(f.node).enclosing(r, (ast.For, ast.While, ast.If, ast.Try)) is None]
-        ok = len(last) == 1 and isinstance(last[0].value, ast.Constant) and last[0].value.value is None and not cfg.falls_off_end()
-        ctx.ob("R3", "EXIT", f, "not found -> None", ok, "ends in `return None` after the scan" if ok else "no unconditional `return None` after the scan")
+        scans = [s2 for s2 in statements(f.node) if isinstance(s2, (ast.For, ast.While)) and FuncView.of(f.node).enclosing(s2, (ast.For, ast.While)) is None]
+        if len(scans) != 1:
+            ctx.undecided("R3", "EXIT", f, "not found -> None", f"{len(scans)} top-level loops: the scan loop cannot be identified")
+            continue
+        loop = scans[0]
+        ex = cfg.edge_node(loop, "exhaust" if isinstance(loop, ast.For) else "false")
+        raises = [r for r in cfg.raise_stmts() if cfg.reaches(ex, cfg.node(r))]
+        rets = [r for r in cfg.return_stmts() if cfg.reaches(ex, cfg.node(r))]
+        none_rets = [r for r in rets if r.value is None or (isinstance(r.value, ast.Constant) and r.value.value is None)]
+        other = [r for r in rets if r not in none_rets]
+        sep = all(any(t.endswith(" is None") and not pol or t.endswith(" is not None") and pol or (not t.count(" ") and pol) for t, pol, _n in dominating_conditions(ctx, f, r)) for r in other)
+        ok = not raises and (bool(none_rets) or cfg.falls_off_end()) and sep
+        ctx.ob("R3", "EXIT", f, "not found -> None", ok,
+               "after an exhausted scan only `return None` is reachable (other returns are behind an `is None` separation)" if ok else
+               f"after an exhausted scan: raises={[src(r)[:40] for r in raises]} returns={[src(r)[:30] for r in rets]} separated={sep}", loop)
     for fq in ("xordecode.XorEncodedFile.from_file", "beacon.BeaconConfig.from_file"):
         f = ctx.repo.func(fq)
         cfg = ctx.cfg(f)
